@@ -16,6 +16,7 @@ import (
 	"fmt"
 	"go/ast"
 	"go/token"
+	"os"
 	"strings"
 )
 
@@ -150,14 +151,17 @@ func c19Spec(name string, guardDeref bool) *irSpec {
 	sp := &irSpec{
 		Name: name,
 		LeanTy: map[string]string{"KVp": "Option KV", "Bytes": "String", "SMap": "List (String × String)",
-			"Syncer": "String → Bool → Option Data", "Cl": "Bool → String → EtcdResp"},
+			"Syncer": "String → Bool → Option Data", "Cl": "Bool → String → EtcdResp",
+			"OpCluster": "(Bool → String → EtcdResp)", "Client": "(Bool → String → EtcdResp)", "Ctx": "Unit", "Cancel": "Unit", "Resp": "List KV"},
 		Fields: map[string]irField{
 			"KVp.Key":         {Fmt: "(kvKey %s)", Ty: "Bytes"},
 			"KVp.Value":       {Fmt: "(kvValue %s)", Ty: "Bytes"},
 			"SyncerC.cluster": {Fmt: "%s", Ty: "Cl"},
+			"Resp.Kvs":        {Fmt: "(%s.map some)", Ty: "List KVp"},
 		},
 		Funcs: map[string]irCall{
 			"len:Data":            {Fmt: "%[1]s.length", Ty: "Nat", NArgs: 1},
+			"len:List KVp":        {Fmt: "%[1]s.length", Ty: "Nat", NArgs: 1},
 			"bytes.Equal:Bytes":   {Fmt: "(%[1]s == %[2]s)", Ty: "Bool", NArgs: 2},
 			"isKeyValueEqual:KVp": {Fmt: "(isKeyValueEqual %[1]s %[2]s)", Ty: "Bool", NArgs: 2},
 			"isDataEqual:Data":    {Fmt: "(isDataEqual %[1]s %[2]s)", Ty: "Bool", NArgs: 2},
@@ -168,11 +172,20 @@ func c19Spec(name string, guardDeref bool) *irSpec {
 			"Cl.GetRaw":       {Fmt: "(getRaw (%[1]s false %[2]s))", Ty: "KVp × Error", NArgs: 1},
 			// the outcome of `s.pull(key, prefix)` is the binder `pl` (none = error)
 			"Syncer.pull": {Fmt: "(pullE (%[1]s %[2]s %[3]s))", Ty: "Data × Error", NArgs: 2},
+			// op.go getters (receiver type OpCluster = the store's answers `cl`; `gc` = getClient fails)
+			"OpCluster.getClient":      {Fmt: "(%[1]s, gc)", Ty: "Client × Error", NArgs: 0},
+			"OpCluster.requestContext": {Fmt: "((), ())", Ty: "Ctx × Cancel", NArgs: 0},
+			"OpCluster.GetRaw":         {Fmt: "(getRaw (respOf %[1]s gc false %[2]s))", Ty: "KVp × Error", NArgs: 1},
+			"OpCluster.GetRawPrefix":   {Fmt: "(getRawPrefix (respOf %[1]s gc true %[2]s))", Ty: "Data × Error", NArgs: 1},
 		},
 		Conv:     map[string]irCall{"string:Bytes": {Fmt: "%[1]s", Ty: "String"}},
 		IndexSet: map[string]string{"Data": "(mapSet %[1]s %[2]s %[3]s)", "SMap": "(smapSet %[1]s %[2]s %[3]s)"},
 		RangeKV:  map[string][2]string{"Data": {"String", "KVp"}},
 		Ignore: func(src string, s ast.Stmt) bool {
+			if ds, ok := s.(*ast.DeferStmt); ok { // `defer cancel()` of a request context
+				_, isId := ds.Call.Fun.(*ast.Ident)
+				return isId && len(ds.Call.Args) == 0
+			}
 			_, ok := s.(*ast.ExprStmt)
 			return ok && strings.HasPrefix(src, "logger.")
 		},
@@ -180,6 +193,55 @@ func c19Spec(name string, guardDeref bool) *irSpec {
 	sp.Hook = func(t *irT, e ast.Expr, env *irEnv) (irTerm, bool, error) {
 		switch x := e.(type) {
 		case *ast.CallExpr:
+			// client.Get(ctx, k) / client.Get(ctx, k, clientv3.WithPrefix()): ONE read of the store; the answer is
+			// `client pfx k`. Any other option list (WithRev, WithLimit, `opts...`, …) is outside the subset.
+			if se, ok := x.Fun.(*ast.SelectorExpr); ok && se.Sel.Name == "Get" && irRootInEnv(se.X, env) {
+				if cx, err := t.tryExpr(se.X, env); err == nil && cx.Ty == "Client" {
+					if x.Ellipsis.IsValid() || len(x.Args) < 2 || len(x.Args) > 3 {
+						return irTerm{}, true, fmt.Errorf("client.Get with an option list that is not fixed: %s", t.r.Src(x))
+					}
+					pfx := "false"
+					if len(x.Args) == 3 {
+						if t.r.Src(x.Args[2]) != "clientv3.WithPrefix()" {
+							return irTerm{}, true, fmt.Errorf("client.Get with an unsupported option: %s", t.r.Src(x))
+						}
+						pfx = "true"
+					}
+					if c, err := t.expr(x.Args[0], env); err != nil || c.Ty != "Ctx" {
+						return irTerm{}, true, fmt.Errorf("client.Get: first argument is not the request context: %s", t.r.Src(x))
+					}
+					k, err := t.expr(x.Args[1], env)
+					if err != nil || k.Ty != "String" {
+						return irTerm{}, true, fmt.Errorf("client.Get: key %s", t.r.Src(x.Args[1]))
+					}
+					return irTerm{fmt.Sprintf("(getE (%s %s %s))", cx.S, pfx, k.S), "Resp × Error"}, true, nil
+				}
+			}
+			// func() (…) { ctx, cancel := c.requestContext(); defer cancel(); return E }(): inlined, value = E
+			if fl, ok := x.Fun.(*ast.FuncLit); ok && len(x.Args) == 0 && (fl.Type.Params == nil || len(fl.Type.Params.List) == 0) {
+				b := fl.Body.List
+				if len(b) != 3 {
+					return irTerm{}, true, fmt.Errorf("immediately invoked closure with an unsupported body: %s", t.r.Src(x))
+				}
+				as, ok1 := b[0].(*ast.AssignStmt)
+				_, ok2 := b[1].(*ast.DeferStmt)
+				rs, ok3 := b[2].(*ast.ReturnStmt)
+				if !ok1 || !ok2 || !ok3 || as.Tok != token.DEFINE || len(as.Lhs) != 2 || len(as.Rhs) != 1 || len(rs.Results) != 1 || !t.ignorable(b[1]) {
+					return irTerm{}, true, fmt.Errorf("immediately invoked closure with an unsupported body: %s", t.r.Src(x))
+				}
+				rc, err := t.expr(as.Rhs[0], env)
+				if err != nil || rc.Ty != "Ctx × Cancel" {
+					return irTerm{}, true, fmt.Errorf("immediately invoked closure: %s is not a request context", t.r.Src(as.Rhs[0]))
+				}
+				env2 := env.push()
+				for i, ty := range []string{"Ctx", "Cancel"} {
+					if id, ok := as.Lhs[i].(*ast.Ident); ok && id.Name != "_" {
+						env2 = env2.with(id.Name, irVar{Lean: "()", Ty: ty, Depth: env2.depth, Param: true})
+					}
+				}
+				v, err := t.expr(rs.Results[0], env2)
+				return v, true, err
+			}
 			// make(map[string]*mvccpb.KeyValue[, n]) / make(map[string]string[, n]): the empty map
 			if id, ok := x.Fun.(*ast.Ident); ok && id.Name == "make" && len(x.Args) >= 1 && !irInEnv(env, "make") {
 				switch t.r.Src(x.Args[0]) {
@@ -236,6 +298,15 @@ func c19Preamble(w *Lean) {
 	w.Line("def smapSet (d : List (String × String)) (k : String) (v : String) : List (String × String) :=")
 	w.Line("  if (d.lookup k).isSome then d.map (fun e => if e.1 == k then (k, v) else e) else d ++ [(k, v)]")
 	w.Line("")
+	w.Line("/-- `(resp.Kvs, err)` of ONE `client.Get`. -/")
+	w.Line("def getE : EtcdResp → List KV × Bool")
+	w.Line("  | .error => ([], true)")
+	w.Line("  | .kvs l => (l, false)")
+	w.Line("")
+	w.Line("/-- What the getters of op.go see of the store: `getClient` failed (`gc`), or the answer `cl pfx key` of the read. -/")
+	w.Line("def respOf (cl : Bool → String → EtcdResp) (gc : Bool) (pfx : Bool) (key : String) : EtcdResp :=")
+	w.Line("  if gc then .error else cl pfx key")
+	w.Line("")
 	w.Line("/-- `(map, err)` as `syncer.pull` returns it, from the outcome `none` = error. -/")
 	w.Line("def pullE : Option Data → Data × Bool")
 	w.Line("  | none => ([], true)")
@@ -246,6 +317,14 @@ func c19Preamble(w *Lean) {
 func init() {
 	register(Extractor{Module: "FactsC19IR", Imports: []string{"EgVerif.Model.Syncer"}, Run: func(r *Repo, w *Lean) error {
 		c19Preamble(w)
+
+		// A function that can no longer be translated breaks ITS theorems only (its definitions are absent from
+		// the generated module, so `<fn>_regenerated_from_source` fails to elaborate and is named by bin/check).
+		soft := func(err error) {
+			fmt.Fprintf(os.Stderr, "factextract: FactsC19IR: %v\n", err)
+			w.Line("/- extraction FAILED for one function (its theorems break): %s -/", strings.ReplaceAll(err.Error(), "-/", "- /"))
+			w.Line("")
+		}
 
 		// --- isKeyValueEqual -------------------------------------------------------------------
 		s := c19Spec("isKeyValueEqualIR", true)
@@ -260,7 +339,7 @@ func init() {
 		}
 		if err := irEmit(r, w, c19File, "", "isKeyValueEqual", s,
 			"`none` = nil pointer dereference (a `.Key` / `.Value` read through a nil `*mvccpb.KeyValue`)."); err != nil {
-			return err
+			soft(err)
 		}
 
 		// --- isDataEqual -----------------------------------------------------------------------
@@ -276,7 +355,7 @@ func init() {
 		}
 		if err := irEmit(r, w, c19File, "", "isDataEqual", s,
 			"Go maps are association lists; the range loop visits the entries in list order."); err != nil {
-			return err
+			soft(err)
 		}
 
 		// --- syncer.pull -----------------------------------------------------------------------
@@ -307,70 +386,138 @@ func init() {
 		}
 		if err := irEmit(r, w, c19File, "syncer", "pull", s,
 			"`cl p k` is the store's answer to `client.Get` of key `k` (`p`: with prefix); the result `(map, err)` is read as the caller\nreads it: `none` when `err != nil`."); err != nil {
-			return err
+			soft(err)
+		}
+
+		// --- op.go: GetRaw, GetRawPrefix, Get, GetPrefix ---------------------------------------------
+		const opFile = "pkg/cluster/op.go"
+		opSpec := func(name, retTy string) *irSpec {
+			s := c19Spec(name, false)
+			s.Binders, s.BNames, s.RetTy = "(cl : Bool → String → EtcdResp) (gc : Bool) (key : String)", []string{"cl", "gc", "key"}, retTy
+			s.Recv = irTerm{"cl", "OpCluster"}
+			s.Params = []irTerm{{"key", "String"}}
+			s.Index = map[string]irCall{"List KVp": {Fmt: "(%[1]s.getD %[2]s none)", Ty: "KVp"}}
+			return s
+		}
+		pairRet := func(okTy string, zero string, wrap func(irTerm) (string, bool)) func(v []irTerm) (string, error) {
+			return func(v []irTerm) (string, error) {
+				if len(v) != 2 {
+					return "", errUnsupportedReturn
+				}
+				res, e := "", v[1].S
+				switch {
+				case v[0].Ty == "nil":
+					res = zero
+				default:
+					r, ok := wrap(v[0])
+					if !ok {
+						return "", errUnsupportedReturn
+					}
+					res = r
+				}
+				switch v[1].Ty {
+				case "nil":
+					e = "false"
+				case "Error":
+				default:
+					return "", errUnsupportedReturn
+				}
+				return fmt.Sprintf("(%s, %s)", res, e), nil
+			}
+		}
+		same := func(ty string) func(irTerm) (string, bool) {
+			return func(x irTerm) (string, bool) { return x.S, x.Ty == ty }
+		}
+		s = opSpec("getRawIR", "Option KV × Bool")
+		s.Ret = pairRet("KVp", "none", same("KVp"))
+		if err := irEmit(r, w, opFile, "cluster", "GetRaw", s,
+			"`cl pfx k` is the store's answer to ONE `client.Get` of `k` (`pfx`: `clientv3.WithPrefix()`), `gc`: `getClient` fails."); err != nil {
+			soft(err)
+		}
+		s = opSpec("getRawPrefixIR", "Data × Bool")
+		s.Ret = pairRet("Data", "([] : Data)", same("Data"))
+		if err := irEmit(r, w, opFile, "cluster", "GetRawPrefix", s,
+			"ONE `client.Get(ctx, prefix, clientv3.WithPrefix())` (the immediately invoked closure is inlined); the map is built from that\nresponse's `Kvs` only. A loop of reads / other options (`WithRev`, `WithLimit`, `opts...`) is outside the translated subset."); err != nil {
+			soft(err)
+		}
+		s = opSpec("getIR", "Option String × Bool")
+		s.Ret = pairRet("StrP", "none", func(x irTerm) (string, bool) { return "some " + x.S, x.Ty == "&String" })
+		if err := irEmit(r, w, opFile, "cluster", "Get", s, ""); err != nil {
+			soft(err)
+		}
+		s = opSpec("getPrefixIR", "List (String × String) × Bool")
+		s.Ret = pairRet("SMap", "([] : List (String × String))", same("SMap"))
+		if err := irEmit(r, w, opFile, "cluster", "GetPrefix", s, ""); err != nil {
+			soft(err)
 		}
 
 		// --- the closure pullCompareSend inside run -----------------------------------------------
-		run, err := r.Func(c19File, "syncer", "run")
-		if err != nil {
-			return err
-		}
-		fl, err := c19Closure(run, "pullCompareSend")
-		if err != nil {
-			return err
-		}
-		capt := c19Captured(fl)
-		if len(capt) != 1 {
-			return fmt.Errorf("pullCompareSend: captured assigned variables %v, expected exactly one (the local `data` of run)", capt)
-		}
-		runParams := c19ParamNames(run.Type)
-		if len(runParams) != 3 || len(c19ParamNames(fl.Type)) != 0 {
-			return fmt.Errorf("run / pullCompareSend: unexpected parameter lists")
-		}
-		// the captured local's declaration in run
-		dataInit := ""
-		for _, st := range run.Body.List {
-			if as, ok := st.(*ast.AssignStmt); ok && as.Tok == token.DEFINE && len(as.Lhs) == 1 && len(as.Rhs) == 1 {
-				if id, ok := as.Lhs[0].(*ast.Ident); ok && id.Name == capt[0] {
-					dataInit = r.Src(as.Rhs[0])
+		if err := func() error {
+			run, err := r.Func(c19File, "syncer", "run")
+			if err != nil {
+				return err
+			}
+			fl, err := c19Closure(run, "pullCompareSend")
+			if err != nil {
+				return err
+			}
+			capt := c19Captured(fl)
+			if len(capt) != 1 {
+				return fmt.Errorf("pullCompareSend: captured assigned variables %v, expected exactly one (the local `data` of run)", capt)
+			}
+			runParams := c19ParamNames(run.Type)
+			if len(runParams) != 3 || len(c19ParamNames(fl.Type)) != 0 {
+				return fmt.Errorf("run / pullCompareSend: unexpected parameter lists")
+			}
+			// the captured local's declaration in run
+			dataInit := ""
+			for _, st := range run.Body.List {
+				if as, ok := st.(*ast.AssignStmt); ok && as.Tok == token.DEFINE && len(as.Lhs) == 1 && len(as.Rhs) == 1 {
+					if id, ok := as.Lhs[0].(*ast.Ident); ok && id.Name == capt[0] {
+						dataInit = r.Src(as.Rhs[0])
+					}
 				}
 			}
-		}
-		w.Line("/-- Initial value of the captured local of `run` that `pullCompareSend` compares with and assigns. -/")
-		w.Line("def runDataInit : String := %s", Str(dataInit))
-		w.Line("")
-		dl := irIdent(capt[0])
-		for _, n := range []string{"pl", "key", "pfx", "sent"} {
-			if dl == n {
-				dl += "_"
+			w.Line("/-- Initial value of the captured local of `run` that `pullCompareSend` compares with and assigns. -/")
+			w.Line("def runDataInit : String := %s", Str(dataInit))
+			w.Line("")
+			dl := irIdent(capt[0])
+			for _, n := range []string{"pl", "key", "pfx", "sent"} {
+				if dl == n {
+					dl += "_"
+				}
 			}
-		}
-		s = c19Spec("pullCompareSendIR", false)
-		s.Binders = fmt.Sprintf("(pl : String → Bool → Option Data) (key : String) (pfx : Bool) (%s : Data) (sent0 : List Data)", dl)
-		s.BNames = []string{"pl", "key", "pfx", dl, "sent0"}
-		s.RetTy = "Data × List Data"
-		s.Recv = irTerm{"pl", "Syncer"}
-		s.Params = []irTerm{{"key", "String"}, {"pfx", "Bool"}, {"", ""}, {dl, "Data"}}
-		s.State = []irLet{{"sent", "List Data", "sent0"}}
-		s.StmtFuncs = map[string]irStmtCall{
-			// `send(x)`: the callee is run's third parameter, whatever its name
-			runParams[2]: {NArgs: 1, Lets: []irLet{{"sent", "List Data", "(%[1]s :: sent)"}}},
-		}
-		s.Ret = func(v []irTerm) (string, error) {
-			if len(v) != 0 {
-				return "", errUnsupportedReturn
+			s = c19Spec("pullCompareSendIR", false)
+			s.Binders = fmt.Sprintf("(pl : String → Bool → Option Data) (key : String) (pfx : Bool) (%s : Data) (sent0 : List Data)", dl)
+			s.BNames = []string{"pl", "key", "pfx", dl, "sent0"}
+			s.RetTy = "Data × List Data"
+			s.Recv = irTerm{"pl", "Syncer"}
+			s.Params = []irTerm{{"key", "String"}, {"pfx", "Bool"}, {"", ""}, {dl, "Data"}}
+			s.State = []irLet{{"sent", "List Data", "sent0"}}
+			s.StmtFuncs = map[string]irStmtCall{
+				// `send(x)`: the callee is run's third parameter, whatever its name
+				runParams[2]: {NArgs: 1, Lets: []irLet{{"sent", "List Data", "(%[1]s :: sent)"}}},
 			}
-			return fmt.Sprintf("(%s, sent)", dl), nil
+			s.Ret = func(v []irTerm) (string, error) {
+				if len(v) != 0 {
+					return "", errUnsupportedReturn
+				}
+				return fmt.Sprintf("(%s, sent)", dl), nil
+			}
+			decl := c19ClosureDecl(run, fl, "pullCompareSend", capt, fl.Body)
+			def, skipped, err := irTranslate(r, decl, s)
+			if err != nil {
+				return err
+			}
+			c19Doc(w, "the closure `pullCompareSend` inside `syncer.run`", skipped,
+				"`pl k p` is the outcome of `s.pull(k, p)` (`none` = error); the 4th binder is the captured local of `run`; `sent` collects the\narguments of `send`, newest first. Result: the captured local and `sent` when the closure returns.")
+			w.sb.WriteString(def)
+			w.Line("")
+
+			return nil
+		}(); err != nil {
+			soft(err)
 		}
-		decl := c19ClosureDecl(run, fl, "pullCompareSend", capt, fl.Body)
-		def, skipped, err := irTranslate(r, decl, s)
-		if err != nil {
-			return err
-		}
-		c19Doc(w, "the closure `pullCompareSend` inside `syncer.run`", skipped,
-			"`pl k p` is the outcome of `s.pull(k, p)` (`none` = error); the 4th binder is the captured local of `run`; `sent` collects the\narguments of `send`, newest first. Result: the captured local and `sent` when the closure returns.")
-		w.sb.WriteString(def)
-		w.Line("")
 
 		// --- the adapters' send closures ------------------------------------------------------------
 		type adapter struct {
@@ -390,76 +537,81 @@ func init() {
 		}
 		for _, a := range ads {
 			a := a
-			fd, err := r.Func(c19File, "syncer", a.fn)
-			if err != nil {
-				return err
-			}
-			fl, err := c19Closure(fd, "fn")
-			if err != nil {
-				return err
-			}
-			if len(c19ParamNames(fd.Type)) != 1 || len(c19ParamNames(fl.Type)) != 1 {
-				return fmt.Errorf("%s: unexpected parameter lists", a.fn)
-			}
-			if c := c19Captured(fl); len(c) != 0 {
-				return fmt.Errorf("%s: the send closure assigns captured variables %v", a.fn, c)
-			}
-			chans := map[string]bool{}
-			body := &ast.BlockStmt{List: c19RewriteSends(r, fl.Body.List, chans)}
-			nch, fresh := 0, true
-			for k := range chans {
-				if !strings.HasPrefix(k, "§value:") {
-					nch++
-					continue
+			if err := func() error {
+				fd, err := r.Func(c19File, "syncer", a.fn)
+				if err != nil {
+					return err
 				}
-				// the value sent must be a map made inside the closure (`v := make(…)`), never the parameter
-				// (the copy cannot be seen by a value-level model: it is tied as this syntactic fact)
-				if !c19MadeInside(r, fl, strings.TrimPrefix(k, "§value:")) {
-					fresh = false
+				fl, err := c19Closure(fd, "fn")
+				if err != nil {
+					return err
 				}
-			}
-			if nch != 1 {
-				return fmt.Errorf("%s: the send closure sends on %d channels", a.fn, nch)
-			}
-			if a.copies {
-				w.Line("/-- `%s`: every value sent on the channel is a map made inside the closure, not the caller's `data`. -/", a.fn)
-				w.Line("def %sFresh : Bool := %s", a.lean, Bool(fresh))
-				w.Line("")
-			}
-			s = c19Spec(a.lean, a.guard)
-			s.Binders, s.BNames, s.RetTy = fmt.Sprintf("(key : String) (data : Data) (out0 : %s)", a.outTy), []string{"key", "data", "out0"}, a.retTy
-			s.Recv = irTerm{"()", "SyncerU"}
-			s.Params = []irTerm{{"key", "String"}, {"data", "Data"}}
-			s.State = []irLet{{"out", a.outTy, "out0"}}
-			s.LeanTy["Out"] = a.outTy
-			s.StmtFuncs = map[string]irStmtCall{"§chSend": {NArgs: 1, Lets: []irLet{{"out", a.outTy, a.send}}}}
-			if a.sendNil != "" {
-				s.StmtFuncs["§chSendNil"] = irStmtCall{NArgs: 0, Lets: []irLet{{"out", a.outTy, a.sendNil}}}
-			}
-			if a.index.Fmt != "" {
-				s.Index = map[string]irCall{"Data": a.index}
-			}
-			guard := a.guard
-			if guard {
-				s.Panic = "none"
-			}
-			s.Ret = func(v []irTerm) (string, error) {
-				if len(v) != 0 {
-					return "", errUnsupportedReturn
+				if len(c19ParamNames(fd.Type)) != 1 || len(c19ParamNames(fl.Type)) != 1 {
+					return fmt.Errorf("%s: unexpected parameter lists", a.fn)
 				}
+				if c := c19Captured(fl); len(c) != 0 {
+					return fmt.Errorf("%s: the send closure assigns captured variables %v", a.fn, c)
+				}
+				chans := map[string]bool{}
+				body := &ast.BlockStmt{List: c19RewriteSends(r, fl.Body.List, chans)}
+				nch, fresh := 0, true
+				for k := range chans {
+					if !strings.HasPrefix(k, "§value:") {
+						nch++
+						continue
+					}
+					// the value sent must be a map made inside the closure (`v := make(…)`), never the parameter
+					// (the copy cannot be seen by a value-level model: it is tied as this syntactic fact)
+					if !c19MadeInside(r, fl, strings.TrimPrefix(k, "§value:")) {
+						fresh = false
+					}
+				}
+				if nch != 1 {
+					return fmt.Errorf("%s: the send closure sends on %d channels", a.fn, nch)
+				}
+				if a.copies {
+					w.Line("/-- `%s`: every value sent on the channel is a map made inside the closure, not the caller's `data`. -/", a.fn)
+					w.Line("def %sFresh : Bool := %s", a.lean, Bool(fresh))
+					w.Line("")
+				}
+				s = c19Spec(a.lean, a.guard)
+				s.Binders, s.BNames, s.RetTy = fmt.Sprintf("(key : String) (data : Data) (out0 : %s)", a.outTy), []string{"key", "data", "out0"}, a.retTy
+				s.Recv = irTerm{"()", "SyncerU"}
+				s.Params = []irTerm{{"key", "String"}, {"data", "Data"}}
+				s.State = []irLet{{"out", a.outTy, "out0"}}
+				s.LeanTy["Out"] = a.outTy
+				s.StmtFuncs = map[string]irStmtCall{"§chSend": {NArgs: 1, Lets: []irLet{{"out", a.outTy, a.send}}}}
+				if a.sendNil != "" {
+					s.StmtFuncs["§chSendNil"] = irStmtCall{NArgs: 0, Lets: []irLet{{"out", a.outTy, a.sendNil}}}
+				}
+				if a.index.Fmt != "" {
+					s.Index = map[string]irCall{"Data": a.index}
+				}
+				guard := a.guard
 				if guard {
-					return "some out", nil
+					s.Panic = "none"
 				}
-				return "out", nil
+				s.Ret = func(v []irTerm) (string, error) {
+					if len(v) != 0 {
+						return "", errUnsupportedReturn
+					}
+					if guard {
+						return "some out", nil
+					}
+					return "out", nil
+				}
+				def, skipped, err := irTranslate(r, c19ClosureDecl(fd, fl, a.fn+".fn", nil, body), s)
+				if err != nil {
+					return err
+				}
+				c19Doc(w, "the closure `fn` inside `syncer."+a.fn+"`", skipped,
+					"`out` collects the values sent on the channel, newest first (`ch <- x` is the only use of the channel). "+a.doc)
+				w.sb.WriteString(def)
+				w.Line("")
+				return nil
+			}(); err != nil {
+				soft(err)
 			}
-			def, skipped, err := irTranslate(r, c19ClosureDecl(fd, fl, a.fn+".fn", nil, body), s)
-			if err != nil {
-				return err
-			}
-			c19Doc(w, "the closure `fn` inside `syncer."+a.fn+"`", skipped,
-				"`out` collects the values sent on the channel, newest first (`ch <- x` is the only use of the channel). "+a.doc)
-			w.sb.WriteString(def)
-			w.Line("")
 		}
 		return nil
 	}})
